@@ -192,6 +192,15 @@ def gen_history(rng):
     return nconn, ops
 
 
+def attempt(cur, text):
+    """SET / UNSET of a defined variable succeeds; anything it raises is an observation, not a harness crash"""
+    try:
+        cur.execute(text)
+        return None
+    except Exception as e:  # noqa: BLE001
+        return ("exception", f"{text}: {type(e).__name__}: {e}"[:300])
+
+
 def run_history(nconn, ops, mutate=None):
     import snowflake.connector.errors as E
 
@@ -203,15 +212,13 @@ def run_history(nconn, ops, mutate=None):
     for o in ops:
         if o[0] == "set":
             _, c, k, n, (sql, _py) = o
-            curs[c][k].execute(f"SET {respell_kw(n)} = {sql}")
-            enc_ops.append([0, c, S(n), S(sql)])
-            obs.append(None)
+            obs.append(attempt(curs[c][k], f"SET {respell_kw(n)} = {sql}"))
+            enc_ops.append([0, c, S(n.upper()), S(sql)])
             texts.append(None)
         elif o[0] == "unset":
             _, c, k, n = o
-            curs[c][k].execute(f"UNSET {respell_kw(n)}")
-            enc_ops.append([1, c, S(n)])
-            obs.append(None)
+            obs.append(attempt(curs[c][k], f"UNSET {respell_kw(n)}"))
+            enc_ops.append([1, c, S(n.upper())])
             texts.append(None)
         else:
             _, c, k, refs, param = o
@@ -226,6 +233,11 @@ def run_history(nconn, ops, mutate=None):
                 obs.append(("undefined", m.group(1)) if m else ("exception", f"ProgrammingError:{e.raw_msg}"))
             except Exception as e:  # noqa: BLE001
                 obs.append(("exception", type(e).__name__))
+    # hypothesis of Props_C15.set_then_reference: no connection's store holds two names that differ in letter case only
+    stores = [getattr(getattr(c, "variables", None), "_variables", None) for c in conns]
+    run_history.noncanon = [sorted(ns) for st in stores if isinstance(st, dict)
+                            for ns in [[n for n in st if isinstance(n, str)]] if len({n.upper() for n in ns}) != len(ns)]
+    run_history.inspected = sum(isinstance(st, dict) for st in stores)
     return enc_ops, obs, texts, clean
 
 
@@ -245,20 +257,33 @@ def check_histories(ck: Check):
     # the same cursor repeating the same statement text while ANOTHER cursor of the connection changes the variable
     hists.insert(1, (2, [("set", 0, 0, "A", VALUES[0]), ("use", 0, 0, ["a"], None), ("set", 0, 1, "A", VALUES[2]), ("use", 0, 0, ["a"], None), ("use", 0, 0, ["a"], None),
                          ("unset", 0, 1, "A"), ("use", 0, 0, ["a"], None), ("set", 1, 1, "A", VALUES[1]), ("use", 1, 0, ["a"], None), ("use", 0, 0, ["a"], None)]))
+    # one variable SET, referenced and UNSET under different spellings of its name: there is one variable, the last SET wins
+    hists.insert(1, (1, [("set", 0, 0, "Ab", VALUES[0]), ("set", 0, 1, "aB", VALUES[1]), ("use", 0, 0, ["ab", "AB", "Ab"], None), ("set", 0, 0, "AB", VALUES[2]),
+                         ("use", 0, 1, ["aB"], None), ("unset", 0, 0, "ab"), ("use", 0, 0, ["Ab"], None), ("set", 0, 0, "ab", VALUES[1]), ("use", 0, 0, ["AB"], None)]))
     cases, all_obs, reported = [], [], False
     for nconn, ops in hists:
         enc_ops, obs, texts, clean = run_history(nconn, ops)
         case = [nconn, enc_ops]
+        ck.count("hist:stores-inspected", run_history.inspected)
+        if run_history.noncanon and not reported:
+            reported = True
+            ck.violation(f"history {ops}: a variable store holds two names that differ in letter case only: {run_history.noncanon}; "
+                         "Props_C15.set_then_reference assumes one spelling per variable (a reference finds the first entry, not the last SET)",
+                         {"kind": "store-names", "nconn": nconn, "ops": ops, "names": run_history.noncanon, "theorem": "Props_C15.set_then_reference"}, no_input=True)
         model = core.model_eval("run_c15_hist", [case])[0]
         ck.cov["evaluations"] += 1
         # independent oracle: python dictionaries of python values
         live = [dict() for _ in range(nconn)]
         for o, ob, mo, text in zip(ops, obs, model, texts):
+            if o[0] in ("set", "unset") and ob is not None and not reported:
+                reported = True
+                ck.violation(f"history {ops}: {o[0].upper()} of {o[3]} on connection {o[1]} cursor {o[2]} raised {ob[1]}",
+                             {"kind": "history-set-raises", "nconn": nconn, "ops": ops, "op": list(o[:4]), "observed": ob[1]})
             if o[0] == "set":
-                live[o[1]][o[3]] = o[4][1]
+                live[o[1]][o[3].upper()] = o[4][1]
                 continue
             if o[0] == "unset":
-                del live[o[1]][o[3]]
+                del live[o[1]][o[3].upper()]
                 continue
             refs, param = o[3], o[4]
             und = next((r for r in refs if r.upper() not in live[o[1]]), None)
